@@ -141,6 +141,12 @@ func genC18(g *gen) {
 					}
 				case 0:
 					steps = append(steps, fmt.Sprintf("dump $%d", sv))
+					// pool traffic: a private copy is made, used, handed back to the pool; views and new tensors follow (their
+					// headers come from the pool) and are read
+					steps = append(steps, fmt.Sprintf("clone $%d", sv), fmt.Sprintf("dump $%d", lv), fmt.Sprintf("ret $%d", lv),
+						fmt.Sprintf("slice $%d %s", sv, g.randSliceList(sh)), fmt.Sprintf("dump $%d", lv+1), fmt.Sprintf("new %s 2,2 C", dt), fmt.Sprintf("dump $%d", lv+2),
+						fmt.Sprintf("ret $%d", lv+2), fmt.Sprintf("clone $%d", sv), fmt.Sprintf("dump $%d", lv+3))
+					lv += 4
 				case 1:
 					steps = append(steps, fmt.Sprintf("atbox $%d 0 -1", sv))
 				case 2:
